@@ -12,12 +12,13 @@ ON_RESULT = {"ok", "unwrap_or", "unwrap_or_default", "unwrap_or_else", "into_ite
 OVER_RESULTS = {"flat_map", "flatten", "filter_map", "find_map"}
 EXEMPT = {
     "ironplcc::cli::enumerate_files|filter_map#1": "directory entries that cannot be read are skipped on purpose; what the directory expansion may drop is decided by R-C13-dir",
+    "ironplcc::cli::enumerate_files::{closure#3}|unwrap_or_else#1": "canonicalize(entry) falls back to the entry's own path: the file stays in the set under its directory spelling and a failure to read it is reported when it is read (P0026); nothing is dropped",
 }
 
 
 def run(ctx, rep, rid="R-C03-errdrop", crates=None):
     r = rep.rule(rid, "no failure is swallowed by an adaptor: no Result is consumed through IntoIterator (flat_map/flatten/into_iter), .ok(), "
-                      ".unwrap_or*() or .map_or*() in product code (one listed exemption)", floor=300,
+                      ".unwrap_or*() or .map_or*() in product code (two listed exemptions)", floor=300,
                  floor_what="calls on / over Result values scanned")
     n = 0
     found = 0
